@@ -14,6 +14,7 @@ def run(ctx):
     s = ctx['seed'] + 12
     return run_parts(ctx, [
         Part('histories', 'corr_api', 'run_histories', [s, 60 if q else 1200]),
+        Part('matcher_code', 'corr_matchergen', 'run', [s, 80 if q else 1500], count_exceptions=False),
         Part('wrapper_code', 'corr_wrappergen', 'run', [s, 100 if q else 2000], count_exceptions=False),
         Part('late_exceptions', 'corr_api', 'run_late_exceptions', [s, 150 if q else 3000]),
         Part('rejected_calls', 'corr_api', 'run_invalid_matrix', [s, 1 if q else 10]),
